@@ -336,3 +336,104 @@ SIMD = fcfg(add=["portable-simd"])
 def tyn(s):
     """type spelling independent of std / alloc / core (no_std configurations print alloc:: paths)"""
     return _re.sub(r"\b(std|alloc|core)::", "S::", s or "")
+
+
+def _operand_locals(x, out):
+    """locals read by an operand / rvalue / terminator description (any nested {'copy'|'move': place} or 'place')"""
+    if isinstance(x, dict):
+        for k, v in x.items():
+            if k in ("copy", "move") and isinstance(v, dict) and "local" in v:
+                out.add(v["local"])
+                for pe in v.get("proj", []):
+                    if isinstance(pe, dict) and "index" in pe:
+                        out.add(pe["index"])
+            elif k == "place" and isinstance(v, dict) and "local" in v:
+                out.add(v["local"])
+            else:
+                _operand_locals(v, out)
+    elif isinstance(x, (list, tuple)):
+        for y in x:
+            _operand_locals(y, out)
+
+
+def loop_carried(b, cf, h, local):
+    """True when `local` is live at the loop header h: on some path from h through the loop it is read before it is
+    (wholly) re-assigned.  Pattern variables bound afresh in every iteration are therefore not loop-carried."""
+    blks = cf.natural_loops()[h]
+    seen = set()
+    st = [h]
+    while st:
+        bb = st.pop()
+        if bb in seen or bb not in blks:
+            continue
+        seen.add(bb)
+        blk = b.blocks[bb]
+        killed = False
+        for s in blk["stmts"]:
+            rd = set()
+            _operand_locals(s.get("rv"), rd)
+            if s["place"]["proj"]:
+                rd.add(s["place"]["local"])
+            if local in rd:
+                return True
+            if s["place"]["local"] == local and not s["place"]["proj"]:
+                killed = True
+                break
+        if killed:
+            continue
+        t = blk["term"]
+        rd = set()
+        _operand_locals({k: v for k, v in t.items() if k not in ("dest",)}, rd)
+        if t.get("dest") and t["dest"]["proj"]:
+            rd.add(t["dest"]["local"])
+        if local in rd:
+            return True
+        if t["k"] == "call" and t["dest"]["local"] == local and not t["dest"]["proj"]:
+            continue
+        for s in cf.succ.get(bb, []):
+            st.append(s)
+    return False
+
+
+def backward_locals(b, local, depth=14):
+    """the locals the value of `local` is computed from (through assignments, references and call arguments)"""
+    defs = {}
+    for blk in b.blocks:
+        if blk["cleanup"]:
+            continue
+        for s in blk["stmts"]:
+            if s["k"] == "assign" and not s["place"]["proj"]:
+                defs.setdefault(s["place"]["local"], []).append(s["rv"])
+        t = blk["term"]
+        if t["k"] == "call" and not t["dest"]["proj"]:
+            defs.setdefault(t["dest"]["local"], []).append({"args": t["args"]})
+    seen = set()
+    st = [(local, 0)]
+    while st:
+        l, d = st.pop()
+        if l in seen or d > depth:
+            continue
+        seen.add(l)
+        for rv in defs.get(l, []):
+            rd = set()
+            _operand_locals(rv, rd)
+            for y in rd:
+                st.append((y, d + 1))
+    return seen
+
+
+def blocks_defining_operand(b, bb, argi):
+    """blocks of the calls whose results flow (through moves / the `?` operator's Try::branch and enum payload reads)
+    into argument `argi` of the call terminating block bb"""
+    t = b.blocks[bb]["term"]
+    a = t["args"][argi]
+    p = a.get("move") or a.get("copy")
+    if not p:
+        return set()
+    ls = backward_locals(b, p["local"])
+    out = set()
+    for i, blk in enumerate(b.blocks):
+        tt = blk["term"]
+        if tt["k"] == "call" and tt["dest"]["local"] in ls:
+            out.add(i)
+    return out
